@@ -42,18 +42,9 @@ import translate_setters as TS
 
 PROP = "C14"
 
-# setters excluded in Properties/C14.v (failing checks_first on the unchanged tree) -> finding
-EXCLUDED = {
-    "Cell.atom_density": "F-C14-density-overflow",
-    "Cell.mass_density": "F-C14-density-overflow",
-    "Importance.all": "F-C14-importance-all-keyerror",
-    "Cells.set_equal_importance": "F-C14-importance-all-keyerror",
-    "MCNP_Problem.cells": "F-C14-cells-setter-clears",
-    "UnitHalfSpace.divider": "F-C14-divider-assigned-before-append",
-    "Mode.set": "F-C14-mode-set-clears",
-    "MCNP_Problem.set_mode": "F-C14-mode-set-clears",
-    "Cell.geometry": "F-C14-geometry-partial-link",
-}
+# setters that Properties/C14.v excludes from C14_all_setters (failing checks_first on the unchanged tree) -> finding.
+# Empty since the six repairs of findings/C14.fixed.json were applied to /repo: every setter is checks-first.
+EXCLUDED = {}
 
 RICH = """C14 rich base problem
 1 1 -2.5 -1 2 -3 imp:n=1 imp:p=1 vol=3.0 u=2
@@ -686,12 +677,13 @@ def _rel(filename):
 
 
 class FrameRec:
-    __slots__ = ("key", "name", "events", "frame", "exc_line", "ret_kind", "primary")
+    __slots__ = ("key", "name", "events", "frame", "exc_line", "ret_kind", "primary", "exc_origin")
 
     def __init__(self, key, name, frame, primary):
         self.key, self.name, self.frame, self.primary = key, name, frame, primary
         self.events = []
         self.exc_line = None
+        self.exc_origin = False     # the exception was raised by this frame itself, not by something it called
         self.ret_kind = None
 
 
@@ -765,6 +757,7 @@ class Tracer:
                 rec = self.by_frame.get(id(tb.tb_frame))
                 if rec is not None:
                     rec.exc_line = tb.tb_lineno
+                    rec.exc_origin = tb.tb_next is None
                 tb = tb.tb_next
         return exc
 
@@ -793,6 +786,8 @@ class Replay:
         self.err_ids = None         # ids of the statements one of which raised (None: the call returned)
         self.err_declared = None    # the raise statement of a check executed: the class must be the declared one
         self.err_site = None
+        self.err_origin = True      # False: the exception came out of a call made by the raising statement
+                                    # (e.g. str(value) inside the message of a `raise`)
 
     def tick(self, s):
         o = self.occ.get(s["id"], 0)
@@ -867,6 +862,7 @@ class Replay:
                     return "raise"
                 self.err_ids = {s["id"] for s in cands}
                 self.err_site = (rec.key[0], rec.exc_line)
+                self.err_origin = rec.exc_origin
                 for s in cands:
                     o = self.occ.get(s["id"], 0)
                     if s["op"] == "check":
@@ -1472,7 +1468,7 @@ class Session:
         self.pending.append({"req": req, "step": step, "prior": len(self.steps), "real": type(exc).__name__ if exc is not None else None,
                              "walk": walked, "err_ids": sorted(rp.err_ids) if rp.err_ids is not None else None,
                              "declared": rp.err_declared, "targets": rp.targets, "problems": rp.problems, "text": self.text,
-                             "site": rp.err_site})
+                             "site": rp.err_site, "origin": rp.err_origin})
 
     # ---- comparison --------------------------------------------------------------------------------
     def compare(self, do_write=True):
@@ -1843,7 +1839,10 @@ def check_pending(ctx, env, pending, failing, stats, sample):
             if p["err_ids"] is not None and res[0] not in p["err_ids"]:
                 why.append(f"model raises at statement {res[0]}, the code at one of {p['err_ids']} ({p['site']})")
             if res[1] != real:
-                why.append(f"model raises {res[1]}, the code {real}")
+                if p.get("origin", True):
+                    why.append(f"model raises {res[1]}, the code {real}")
+                else:
+                    stats.n["raise_message_failed"] = stats.n.get("raise_message_failed", 0) + 1
         if res is not None:
             st = _find_stmt(E[p["step"]["entry"]].ir, res[0])
             if st is not None and st["op"] == "call" and st["m"] and not st["a"] and targets and targets[-1] == "call:" + st["f"][:60]:
@@ -1970,7 +1969,7 @@ def run(ctx):
             pending += ses.pending
         i += 1
     marks["search"] = round(time.time() - t0, 1)
-    corr = check_pending(ctx, env, pending, failing, stats, sample=40 if quick else 150)
+    corr = check_pending(ctx, env, pending, failing, stats, sample=12 if quick else 100)
     marks["model"] = round(time.time() - t0, 1)
     # replay of the committed findings
     for fd in ctx.findings:
